@@ -16,6 +16,11 @@ timedout(T) turns true at the first sweep with now - last_recv >= T and not befo
 at the first update later than last_recv + 5 s and not before; unanswered connect — DISCONNECTED at the first
 update later than the configured time-out, callback exactly once with False; setters never raise and the
 connection carries the values set last.
+Server settings at every moment (settings_world): the real server loop behind every front door (harness/srvx.py), the ServerContext
+configured before the server object is built OR between construction and start through the public setters (and set again while running):
+a silent client gets its disconnect event at the first sweep with now - last datagram >= the configured connection time-out and not before,
+a peer stalled after its hello loses its slot after the configured handshake time-out, new connections carry the configured keep-alive
+interval and message time-out, the idle client stays; replayed on Server.v with the configured values (unit srv_run).
 Two-endpoint composition (Model/TimedNet.v, theorems C12_idle_pair_*):
   * idle_pair_run (1210): joint timed schedules (harness/idlesim.py) of an established idle pair — both real
     endpoints under one virtual clock, the server loop's sweep rule applied as server.py does, datagrams
@@ -41,6 +46,8 @@ ASSUMPTIONS = ["time values are multiples of 1/1024 s (exact in binary floating 
                "sides call update() at least every tau, fewer than half the sequence ring alive (life <= 32766 * (max(K, si) + 1)), "
                "and the pair starts established with nothing in flight"]
 TRUSTED = ["harness/connsim.py + netsim.py virtual clock (mpgameserver.connection.time replaced by a shim)",
+           "harness/srvsim.py + srvx.py (stepped real server loop behind every front door, configured at every moment; ScriptedSocket stands "
+           "for the OS socket under _UdpServer.run)",
            "harness/idlesim.py applies the server loop's sweep to one connection itself (DISCONNECTING -> disconnect(); removed when "
            "DISCONNECTED or ConnectionBase.timedout(connection_timeout); update() either way) instead of running UdpServerThread; "
            "Coq: C12_server_sweep_is_the_server_loop relates the same step to the server-loop model of C10/C11"]
@@ -596,7 +603,7 @@ def run(run):
     from harness import srvx as X
     cases, impl, mod = [], [], []
     combos = [(f, c) for c in ("between", "before") for f in X.FRONTS]
-    for i in range(32 if th else 10):
+    for i in range(120 if th else 10):
         front, configure = combos[i % len(combos)]
         with X.logging_enabled():
             c, diff = settings_world(run, rng, i, front, configure, rerun_setters=(i % 3 == 2))
